@@ -127,6 +127,10 @@ func GenChainPlan(rt *rapid.T, p *GenParams) *ChainPlan {
 // genProgC09 draws programs that also fail (status >= 400 / error) part of the time.
 func genProgC09(rt *rapid.T, depth int) []KOp {
 	prog := genProg(rt, depth)
+	// contract-originated transfers (the contract account is funded by ordinary transfers)
+	for i, nx := 0, rapid.SampledFrom([]int{0, 0, 0, 1, 2, 3}).Draw(rt, "nxfer"); i < nx; i++ {
+		prog = append(prog, KOp{Op: "xfer", To: Accts[rapid.IntRange(0, nAcct-1).Draw(rt, "xferto")].Addr, Amount: rapid.SampledFrom([]string{"1", "7", "40", "0"}).Draw(rt, "xferamt")})
+	}
 	if rapid.IntRange(0, 2).Draw(rt, "cp") == 0 {
 		prog = append(prog, KOp{Op: "cp", K: rapid.SampledFrom(kvKeys).Draw(rt, "cpsrc"), V: rapid.SampledFrom(kvKeys).Draw(rt, "cpdst")})
 	}
